@@ -119,6 +119,7 @@ func runC16(c *fw.Ctx) {
 	for i := 0; i < c.Pick(100, 2000); i++ {
 		c.Case(func(k *fw.K) { c16Overflow(k) })
 		c.Case(func(k *fw.K) { c16InfiniteFeature(k) })
+		c.Case(func(k *fw.K) { c16OutputUsedTwice(k) })
 	}
 	for i := 0; i < c.Pick(800, 16000); i++ {
 		c.Case(func(k *fw.K) { c16Frozen(k) })
@@ -918,5 +919,97 @@ func c16InfiniteFeature(k *fw.K) {
 	want, _ := ref.FC(x, w, b)
 	if e := rt.Compare(y, want, 1e-12, 1e-12, nil, 0); e != nil {
 		k.Failf("Forward on a [%d,%d] batch whose row %d holds an infinite feature: %v", B, D, row, e)
+	}
+}
+
+// c16OutputUsedTwice: the layer output y reaches the root along two purely additive paths (y + y, (y + c) + y: a residual sum, the
+// same gradient object travels both ways), or through a head that is switched off with an exact factor 0 next to a live head
+// (l1.Scale(1) + l2.Scale(0)). Batch of one row: no expansion, the parameters' gradients are decided exactly - twice the
+// single-path gradient in the first case, zeros of the parameter's shape (not nil) for the switched-off layer in the second.
+func c16OutputUsedTwice(k *fw.K) {
+	r := k.Rng
+	D, O := 1+r.Intn(4), 1+r.Intn(4)
+	mk := func() (*layers.FC, *ref.T, *ref.T, error) {
+		w, b := Shuffled(r, Unique(r, []int{O}, 0.2, 2)), Shuffled(r, Unique(r, []int{O}, 0.2, 2))
+		fc, err := layers.NewFC(&layers.FCConfig{Inputs: D, Outputs: O, Initializers: map[string]layers.Initializer{"Weight": fixedInit{w}, "Bias": fixedInit{b}}})
+		return fc, w, b, err
+	}
+	fc1, w1, b1, err := mk()
+	if err != nil {
+		k.Failf("NewFC: %v", err)
+		return
+	}
+	x := Shuffled(r, Unique(r, []int{1, D}, 0.2, 2))
+	sx := 0.
+	for _, v := range x.Data {
+		sx += v
+	}
+	variant := r.Intn(3)
+	k.Case = map[string]any{"scenario": []string{"y + y", "(y + c) + y", "head 1 * 1 + head 2 * 0"}[variant], "inputs": D, "outputs": O, "W": w1.Data, "B": b1.Data, "x": x.Data}
+	k.Key("output-used-twice/%d/%d/%d", variant, D, O)
+	k.Count("output_used_twice_cases", 1)
+	var fc2 *layers.FC
+	if pn := call(func() {
+		var y, z tensor.Tensor
+		if y, err = fc1.Forward(rt.MustLeaf(x, false)); err != nil {
+			return
+		}
+		switch variant {
+		case 0:
+			z, err = y.Add(y)
+		case 1:
+			if z, err = y.Add(rt.MustLeaf(Shuffled(r, Unique(r, []int{1, O}, 0.2, 2)), false)); err == nil {
+				z, err = z.Add(y)
+			}
+		default:
+			if fc2, _, _, err = mk(); err != nil {
+				return
+			}
+			var y2 tensor.Tensor
+			if y2, err = fc2.Forward(rt.MustLeaf(x, false)); err == nil {
+				z, err = y.Scale(1).Add(y2.Scale(0))
+			}
+		}
+		if err == nil {
+			err = tensor.BackPropagate(z)
+		}
+	}); pn != nil || err != nil {
+		k.Failf("forward / back-propagation: panic=%v err=%v", pn, err)
+		return
+	}
+	mult := 2.
+	if variant == 2 {
+		mult = 1
+	}
+	check := func(fc *layers.FC, which string, m float64) bool {
+		for pi, name := range []string{"Weight", "Bias"} {
+			gr := (*fc.Weights()[pi].Value).Gradient()
+			if gr == nil {
+				k.Failf("%s of %s received no gradient (expected %v times the single-path gradient, of the parameter's shape)", name, which, m)
+				return false
+			}
+			got, err := rt.Read(gr)
+			if err != nil || !ref.SameShape(got.Shape, []int{O}) {
+				k.Failf("gradient of %s of %s unreadable or of shape %v: %v", name, which, got, err)
+				return false
+			}
+			for o, v := range got.Data {
+				want := m
+				if pi == 0 {
+					want = m * sx
+				}
+				if !ref.Close(v, want, 1e-12, 1e-12) {
+					k.Failf("gradient of %s[%d] of %s = %v, expected %v (batch of one row: d y[0][o]/dW[o] = sum_d x = %v, d y[0][o]/dB[o] = 1; the output reaches the root %v time(s))", name, o, which, v, want, sx, m)
+					return false
+				}
+			}
+		}
+		return true
+	}
+	if !check(fc1, "the layer", mult) {
+		return
+	}
+	if fc2 != nil {
+		check(fc2, "the layer whose output is multiplied by an exact 0", 0)
 	}
 }
